@@ -497,7 +497,37 @@ def check_C19(run, replay=None):
     return run.finish()
 
 
-CHECKS = {"C19": check_C19}
+def check_C13(run, replay=None):
+    proof_ok = run.proof_side()
+    cases, impl, model, meta = run.run_vh(["-cases", replay] if replay else None)
+    compare(run, cases, impl, model,
+            nontrivial=lambda c, iv: len(c.split(" ")[2]) > 2)
+    k = meta.get("kinds", {})
+    idx = sorted({min(7, len(cases) - 1), min(1500, len(cases) - 1), len(cases) - 1})
+    run.coverage.update({
+        "rule": "enc cases: content s is embedded by the REAL Generate (goimports included), the constant SpecFile of the written spec_file.go "
+                "is evaluated with go/parser+go/types and compared with go_eval(encode s) (model) and with s (spec): exhaustive over all strings of "
+                "length<=4 over {`,\",\\,LF,CR,$,a} (2801), real specs in original/CRLF/no-trailing-newline/one-line-JSON forms, seeded random text; "
+                "lit cases validate the model's Go-literal evaluator against go/types on synthetic valid and invalid literal expressions; "
+                "non-trivial = content longer than one byte; distinct by (case, observation)",
+        "exhaustive": True,
+        "exhaustive_universe": "all byte strings of length <= 4 over 7 symbols (2801 contents)",
+        "input_distribution": {"kinds": k, "impl_invalid_literals": meta.get("impl_invalid")},
+        "programs": k.get("enc", 0),
+        "samples": [{"case": cases[i], "impl": impl[i], "model_and_spec": model[i]} for i in idx],
+        "trusted_base": TRUSTED_COMMON + [
+            "modelled, not verified: Go's lexical rules for raw/interpreted string literals and constant '+' (Model/GoLit.v go_eval), "
+            "tied to go/parser+go/types on every run by the lit cases; strings.NewReplacer on single-byte patterns as a per-byte substitution",
+            "domain: content without NUL (Go source cannot contain it); bytes >= 0x80 are opaque to the model (invalid UTF-8 / BOM are illegal in Go source)",
+            "gofmt/goimports do not alter string-literal contents (checked on every enc case, not proved)",
+        ],
+    })
+    if not proof_ok:
+        run.violation(dict(getattr(run, "coq_failure", {}), input=None), None, note="no-failing-input-found")
+    return run.finish()
+
+
+CHECKS = {"C19": check_C19, "C13": check_C13}
 
 
 def setup():
